@@ -12,7 +12,6 @@ import (
 	"path/filepath"
 	"runtime"
 	"strings"
-	"sync"
 	"sync/atomic"
 	"time"
 
@@ -231,6 +230,15 @@ func runConc(c Case) Obs {
 		if !tssfakes.WaitFor(20*time.Second, func() bool { return blockedInExecute() >= n }) {
 			note = "gate: not every request reached the process lock"
 		}
+		// Hand the lock over in FIFO order: every request has now waited longer than a millisecond;
+		// releasing the lock and barging back in makes the woken waiter find it locked again, which
+		// puts Go's mutex into starvation mode (direct hand-off to the longest waiter, newcomers
+		// queue at the tail).  Every request then passes its first critical section before any of
+		// them gets the lock a second time - the adversarial schedule for check-then-act bugs.
+		time.Sleep(2 * time.Millisecond)
+		e.c.VerifUnlockProcesses()
+		e.c.VerifLockProcesses()
+		time.Sleep(2 * time.Millisecond)
 		e.c.VerifUnlockProcesses()
 	}
 	// decided: every request was refused or its process runs
@@ -642,7 +650,9 @@ func gen(r *vgen.Rng, tier string) []Case {
 		out = append(out, Case{Kind: "streams", Ops: ops})
 	}
 	if tier == "thorough" {
-		out = append(out, Case{Kind: "race", Rounds: 300})
+		out = append(out, Case{Kind: "race", Rounds: 600})
+	} else {
+		out = append(out, Case{Kind: "race", Rounds: 120})
 	}
 	return out
 }
@@ -682,10 +692,8 @@ func coq(c Case, o Obs) string {
 		if len(o.MaxLive) > 0 {
 			races = o.MaxLive[0]
 		}
-		if o.Note != "" && races == 0 && !strings.Contains(o.Note, "skipped") {
-			races = 999999 // the race run itself failed: do not pass silently
-		}
-		return "Race " + vgen.Nat(c.Rounds) + " " + vgen.Nat(races)
+		ran := o.Note == "" || races > 0
+		return "Race " + vgen.Nat(c.Rounds) + " " + vgen.Nat(races) + " " + vgen.Bool(ran)
 	case "sess":
 		role := map[string]string{"coord": "Coord", "peer": "Peer"}[c.Role]
 		oc := map[string]string{"success": "Success", "error": "ProcessError", "silent": "CoordinatorSilent",
@@ -766,8 +774,6 @@ func main() {
 		raceChild(n)
 		return
 	}
-	var mu sync.Mutex
-	_ = mu
 	vgen.Main(vgen.Spec[Case, Obs]{
 		Property:  "C09",
 		RunModule: "C09",
